@@ -270,26 +270,41 @@ pub fn shape(t: i32, r: &mut Rng, c: &Cfg) -> Shape {
         3 => Shape::Polyline(Polyline::with_parts(vec_of(r, 1, mp, |r| vec_of(r, 2, ml.max(2), |r| p2(r, c))))),
         23 => Shape::PolylineM(PolylineM::with_parts(vec_of(r, 1, mp, |r| vec_of(r, 2, ml.max(2), |r| pm(r, c))))),
         13 => Shape::PolylineZ(PolylineZ::with_parts(vec_of(r, 1, mp, |r| vec_of(r, 2, ml.max(2), |r| pz(r, c))))),
-        5 => Shape::Polygon(Polygon::with_rings(vec_of(r, 1, mp, |r| {
-            let v = vec_of(r, 1, ml, |r| p2(r, c));
-            let v = maybe_close(r, v);
-            ring_of(r, v)
-        }))),
-        25 => Shape::PolygonM(PolygonM::with_rings(vec_of(r, 1, mp, |r| {
-            let v = vec_of(r, 1, ml, |r| pm(r, c));
-            let v = maybe_close(r, v);
-            ring_of(r, v)
-        }))),
-        15 => Shape::PolygonZ(PolygonZ::with_rings(vec_of(r, 1, mp, |r| {
-            let v = vec_of(r, 1, ml, |r| pz(r, c));
-            let v = maybe_close(r, v);
-            ring_of(r, v)
-        }))),
-        31 => Shape::Multipatch(Multipatch::with_parts(vec_of(r, 1, mp, |r| {
-            let v = vec_of(r, 1, ml, |r| pz(r, c));
-            let v = maybe_close(r, v);
-            patch_of(r, v)
-        }))),
+        5 => {
+            let mut rings = vec_of(r, 1, mp, |r| {
+                let v = vec_of(r, 1, ml, |r| p2(r, c));
+                let v = maybe_close(r, v);
+                ring_of(r, v)
+            });
+            // a single ring goes through the single-ring constructor every other time
+            Shape::Polygon(if rings.len() == 1 && r.chance(0.5) { Polygon::new(rings.pop().unwrap()) } else { Polygon::with_rings(rings) })
+        }
+        25 => {
+            let mut rings = vec_of(r, 1, mp, |r| {
+                let v = vec_of(r, 1, ml, |r| pm(r, c));
+                let v = maybe_close(r, v);
+                ring_of(r, v)
+            });
+            // a single ring goes through the single-ring constructor every other time
+            Shape::PolygonM(if rings.len() == 1 && r.chance(0.5) { PolygonM::new(rings.pop().unwrap()) } else { PolygonM::with_rings(rings) })
+        }
+        15 => {
+            let mut rings = vec_of(r, 1, mp, |r| {
+                let v = vec_of(r, 1, ml, |r| pz(r, c));
+                let v = maybe_close(r, v);
+                ring_of(r, v)
+            });
+            // a single ring goes through the single-ring constructor every other time
+            Shape::PolygonZ(if rings.len() == 1 && r.chance(0.5) { PolygonZ::new(rings.pop().unwrap()) } else { PolygonZ::with_rings(rings) })
+        }
+        31 => {
+            let mut patches = vec_of(r, 1, mp, |r| {
+                let v = vec_of(r, 1, ml, |r| pz(r, c));
+                let v = maybe_close(r, v);
+                patch_of(r, v)
+            });
+            Shape::Multipatch(if patches.len() == 1 && r.chance(0.5) { Multipatch::new(patches.pop().unwrap()) } else { Multipatch::with_parts(patches) })
+        }
         _ => panic!("harness: no generator for type code {}", t),
     }
 }
